@@ -7,7 +7,9 @@
 
   `Defects` lists the deviations of the pinned tree from the GraphQL grammar; `true` = pinned
   behaviour.  Grammar-level ones are *repaired* by a patch of the generated grammar when the toggle
-  is off, so with all toggles on the grammar interpreted is exactly the generated one.
+  is off, so with the toggles of `Defects.pinned` the grammar interpreted is exactly the generated one
+  (a grammar-level defect the tree has repaired since — `emptyStringBeforeQuote` — is modelled the other
+  way round: the toggle removes the repair from the generated rule).
   Core-only imports.
 -/
 import AGV.Model.Peg
@@ -40,7 +42,8 @@ structure Defects where
   emptyVarDefs : Bool := false
   /-- `string` falls back to the plain-string alternative when the input starts with `"""` but is
       not a complete block string: `["""" ""]` is read as three empty strings (the spec: `""` is a
-      StringValue only when not followed by `"`; an unterminated block string is an error) -/
+      StringValue only when not followed by `"`; an unterminated block string is an error).
+      Repaired in the tree by cf2b035 (the generated grammar has the guard), hence off in `pinned`. -/
   emptyStringBeforeQuote : Bool := false
   /-- `\"""` is kept verbatim in block strings -/
   blockEscapeKept : Bool := false
@@ -57,7 +60,7 @@ def Defects.none : Defects := {}
 def Defects.pinned : Defects :=
   { atomicTypeRule := true, varDefDirectivesFirst := true, varDefNonConstDirectives := true,
     keywordGlue := true, numberDigitFollow := true, onNeedsWhitespace := true, fragmentNamedOn := true,
-    emptyVarDefs := true, emptyStringBeforeQuote := true, blockEscapeKept := true, shortBlankLineKept := true, intAsFloat := true,
+    emptyVarDefs := true, emptyStringBeforeQuote := false, blockEscapeKept := true, shortBlankLineKept := true, intAsFloat := true,
     floatDoubleRounding := true }
 
 -- ------------------------------------------------------------------ grammar patches (repairs)
@@ -168,13 +171,24 @@ def patchVarDefs (g : Grammar) : Grammar :=
 
 def tripleQuote : List Char := ['"', '"', '"']
 
-/-- repair of `emptyStringBeforeQuote`: the plain-string alternative of `string` is guarded by
-    `!"\"\"\""` (a text that starts with three quotes is a block string or nothing) -/
+/-- the plain-string alternative of `string` without a guard in front of it -/
+def stripGuard : Expr → Expr
+  | .choice blk (.seq (.neg (.str _)) plain) => .choice blk plain
+  | e => e
+
+/-- … and with the guard `!"\"\"\""` (a text that starts with three quotes is a block string or nothing) -/
+def addGuard : Expr → Expr
+  | .choice blk plain => .choice blk (.seq (.neg (.str tripleQuote)) plain)
+  | e => e
+
+/-- `emptyStringBeforeQuote` off: the `string` rule carries the guard (the tree has it since cf2b035, so
+    on the generated grammar this changes nothing; on a source without it, it is added — once) -/
 def patchString (g : Grammar) : Grammar :=
-  mapRule "string" (fun r => { r with expr :=
-    match r.expr with
-    | .choice blk plain => .choice blk (.seq (.neg (.str tripleQuote)) plain)
-    | e => e }) g
+  mapRule "string" (fun r => { r with expr := addGuard (stripGuard r.expr) }) g
+
+/-- `emptyStringBeforeQuote` on (the tree before cf2b035): the guard is removed -/
+def unpatchString (g : Grammar) : Grammar :=
+  mapRule "string" (fun r => { r with expr := stripGuard r.expr }) g
 
 /-- the grammar the model interprets: the generated one with the repairs of the toggles that are off
     (`patchKeywords` last so that it also covers literals introduced by other repairs) -/
@@ -186,7 +200,7 @@ def grammarFor (D : Defects) : Grammar :=
   let g := if D.onNeedsWhitespace then g else patchTypeCondition g
   let g := if D.fragmentNamedOn then g else patchFragmentName g
   let g := if D.emptyVarDefs then g else patchVarDefs g
-  let g := if D.emptyStringBeforeQuote then g else patchString g
+  let g := if D.emptyStringBeforeQuote then unpatchString g else patchString g
   if D.keywordGlue then g else patchKeywords g
 
 -- ------------------------------------------------------------------ utils.rs
